@@ -39,3 +39,23 @@ package hclsyntax
 //@     invariant own: (cap(ret) == 0 || fresh(arrayof(ret))) && forall(k, 0, len(slices), len(slices[k]) == 0 || samearray(slices[k], tok.Bytes)) && len(slice) > 0
 //@   loop "for i := 0; i < l; i++"
 //@     invariant own: (cap(ret) == 0 || fresh(arrayof(ret))) && forall(k, 0, len(slices), len(slices[k]) == 0 || samearray(slices[k], tok.Bytes)) && len(slice) >= 2 && (slice[1] == 117 || slice[1] == 85)
+
+// C14: "a profile that omits a required setting ... is rejected with an error". Matching a body against a
+// schema: a required argument that the body does not define yields a diagnostic; an argument or block is
+// handed out only if the body defines it, it has not been handed out before (hidden), the schema wants
+// it, and - for a block - it carries exactly as many labels as the schema names.
+//@ spec missingReq(b, schema) = exists(i, 0, len(schema.Attributes), schema.Attributes[i].Required && !maphas(b.Attributes, schema.Attributes[i].Name))
+//@ func (b *Body) PartialContent(schema *hcl.BodySchema) (c *hcl.BodyContent, remain hcl.Body, diags hcl.Diagnostics)
+//@   requires nonnil: b != nil && schema != nil
+//@   modifies *
+//@   ensures-local missing: missingReq(b, schema) ==> len(diags) >= 1
+//@   guard-call attr:  "AsHCLAttribute" exists && !hidden && arg(0) == attr
+//@   guard-call block: "AsHCLBlock" wanted && len(block.Labels) == len(blockS.LabelNames) && arg(0) == block
+//@   loop "for _, attrS := range schema.Attributes"
+//@     invariant seen: forall(k, 0, idx__, (schema.Attributes[k].Required && !maphas(b.Attributes, schema.Attributes[k].Name)) ==> len(diags) >= 1)
+//@   loop "for _, blockS := range schema.Blocks" #1
+//@     invariant carried: missingReq(b, schema) ==> len(diags) >= 1
+//@   loop "for _, block := range b.Blocks"
+//@     invariant carried: missingReq(b, schema) ==> len(diags) >= 1
+//@   loop "for _, blockS := range schema.Blocks" #2
+//@     invariant carried: missingReq(b, schema) ==> len(diags) >= 1
